@@ -18,8 +18,10 @@
 //   - "closure": every package of this module imported (transitively) by the anchored packages — one digest per file;
 //   - "module": go.mod's require / replace / exclude directives, the presence of any go.work / go.work.sum / vendor
 //     directory / nested go.mod anywhere in the tree (they redirect dependencies, or carve packages out of the module,
-//     for builds made inside the repository only), and every write to (or address-of) a package-level
-//     variable of an anchored or closure package from any other package of the module.
+//     for builds made inside the repository only), every write to (or address-of) a package-level
+//     variable of an anchored or closure package from any other package of the module (`extwrite:`), and every string
+//     literal elsewhere in the module that names an exported type of an anchored package as "pkg.Type" (`extname:` —
+//     registries keyed by type name re-bind a type's codec without importing it).
 //
 // bin/check compares this with the committed expectation meta/surface/<Cxx>.json on every run.
 package main
@@ -309,7 +311,7 @@ func pkgItems(repo, dir string, anchored map[string]bool, digestOnly bool) (map[
 var writeRe = regexp.MustCompile(`^\w+$`)
 
 // extWrites finds writes to (or address-of) package-level variables of the target packages from other packages.
-func extWrites(repo string, targets map[string]bool) map[string]string {
+func extWrites(repo string, targets map[string]bool, typeNames map[string]string) map[string]string {
 	items := map[string]string{}
 	_ = filepath.Walk(repo, func(path string, info os.FileInfo, err error) error {
 		if err != nil {
@@ -331,6 +333,18 @@ func extWrites(repo string, targets map[string]bool) map[string]string {
 		if err != nil {
 			return nil
 		}
+		// a registry keyed by type NAME (jsoniter.RegisterTypeDecoder("tex.JsInt64", …), gob, reflection tables) re-binds
+		// the behaviour of an anchored type without importing its package: any string literal naming one, outside its package
+		ast.Inspect(f, func(n ast.Node) bool {
+			if bl, ok := n.(*ast.BasicLit); ok && bl.Kind == token.STRING {
+				if v, err := strconv.Unquote(bl.Value); err == nil {
+					if d, ok := typeNames[strings.TrimPrefix(v, "*")]; ok && d != dir {
+						items["extname:"+filepath.ToSlash(rel)+":"+v] = "1"
+					}
+				}
+			}
+			return true
+		})
 		alias := map[string]string{}
 		for _, im := range f.Imports {
 			p, _ := strconv.Unquote(im.Path.Value)
@@ -471,7 +485,26 @@ func main() {
 	for d := range seen {
 		targets[d] = true
 	}
-	for k, v := range extWrites(repo, targets) {
+	typeNames := map[string]string{}
+	for d := range anchoredDirs {
+		for _, n := range goFiles(repo, d) {
+			fset := token.NewFileSet()
+			f, err := parser.ParseFile(fset, filepath.Join(repo, d, n), nil, parser.SkipObjectResolution)
+			if err != nil {
+				continue
+			}
+			for _, dc := range f.Decls {
+				if gd, ok := dc.(*ast.GenDecl); ok && gd.Tok == token.TYPE {
+					for _, sp := range gd.Specs {
+						if ts := sp.(*ast.TypeSpec); ts.Name.IsExported() {
+							typeNames[f.Name.Name+"."+ts.Name.Name] = d
+						}
+					}
+				}
+			}
+		}
+	}
+	for k, v := range extWrites(repo, targets, typeNames) {
 		mod[k] = v
 	}
 	out["module"] = mod
